@@ -5,7 +5,7 @@ generated once per check run."""
 UNITS = {
     'C09': {
         'functions': ['penman._lexer:TokenIterator.__bool__', 'penman._lexer:TokenIterator.peek',
-                      'penman._lexer:TokenIterator.next'],
+                      'penman._lexer:TokenIterator.next', 'penman._format:format'],
         'regex': ['linebreak', 'lexer'],
         'lemmas': [],
         'level': 'other',
@@ -76,7 +76,8 @@ UNITS = {
                        '(the in-place tree builder) is decided by the bounded stand-in.',
     },
     'C01': {
-        'functions': ['penman._format:_format_edge', 'penman._lexer:TokenIterator.expect',
+        'functions': ['penman._format:_format_edge', 'penman._format:format', 'penman.tree:_nodes',
+                      'penman.tree:Tree.nodes', 'penman._lexer:TokenIterator.expect',
                       'penman._lexer:TokenIterator.peek', 'penman._lexer:TokenIterator.next'],
         'regex': ['lexer'],
         'lemmas': [],
